@@ -34,8 +34,12 @@ def replay_history(pool, beh):
         others = [k for k in range(len(schemas)) if k != st["s"] - 1]
         other_snap = [graph_snap(schemas[k]) for k in others]
         old_s_rules = list(S.rules)
+        import copy as _copy
+        held = [(_copy.copy(x), list(x.rules)) for x in schemas]       # other holders of every schema as it is now
         with watch(objs=schemas + [R], docs=docs) as w:
             out, _ = outcome_of(lambda: S.add_schema(T, R))
+        if any(len(h.rules) != len(rs) or any(a is not b for a, b in zip(h.rules, rs)) for h, rs in held):
+            return ("OtherHoldersUnaffected", f"step {si}: a shallow copy taken before the call sees the added rules")
         if out != "ok":
             return ("AddSchemaSucceeds", f"step {si}: {out}")
         bad_writes = [x for x in w.writes if x != "Schema.rules"]
@@ -97,8 +101,12 @@ def random_history(rng, events=None, recipes=None):
             R = root[0][1]               # the root given as a plain key (`key / path` is a path)
         t_rules = list(schemas[t].rules)
         t_snap = [graph_snap(r) for r in t_rules]
+        import copy as _copy
+        held = [(_copy.copy(x), list(x.rules)) for x in schemas]
         with watch(objs=schemas + [R], docs=[doc]) as w:
             out, _ = outcome_of(lambda: schemas[s].add_schema(schemas[t], R))
+        if any(len(h.rules) != len(rs) or any(a is not b for a, b in zip(h.rules, rs)) for h, rs in held):
+            return ("OtherHoldersUnaffected", "a shallow copy taken before the call sees the added rules", doc)
         if out != "ok":
             return ("AddSchemaSucceeds", out, doc)
         if [x for x in w.writes if x != "Schema.rules"]:
